@@ -35,7 +35,7 @@ Step ==
      IF e.ev = "PDoc" THEN
         /\ Chk(e.expect.k = "none" \/ e.expect = e.ref, [tag |-> "HARNESS", i |-> l, ev |-> "PDoc", api |-> "", label |-> "ReferenceVsGenerated", exp |-> "", got |-> "", detail |-> ""])
         /\ LET enc == PEncMsg(e.ref, e.schema.msgs[e.schema.root], e.schema.msgs) IN
-           Chk(IF HasBigMap(e.ref) THEN Len(enc) = Len(e.b) ELSE enc = e.b,
+           Chk(IF HasBigMap(e.ref) \/ e.anyorder THEN Len(enc) = Len(e.b) ELSE enc = e.b,
                [tag |-> "HARNESS", i |-> l, ev |-> "PDoc", api |-> "", label |-> "SpecEncodingVsReference", exp |-> "", got |-> "", detail |-> ""])
         /\ doc' = e.ref /\ schema' = e.schema
      ELSE IF e.ev = "Crash" THEN
